@@ -14,7 +14,7 @@ def run_driver(chk, nrand):
         v = vlib.classify_panic(t["out"])
         if v:
             return dict(scenarios=0, distinct=0, samples=[], violations=[v], extra={})
-        raise vlib.MachineryError("C19 driver failed:\n" + t["out"][-3500:])
+        raise vlib.driver_failed("C19 driver failed", t["out"], leak_is_violation=True)
     return json.load(open(resf))
 
 
